@@ -68,6 +68,20 @@ def run(R, job):
         checked += 1
         if len(samples) < 3:
             samples.append({"tree": ctx.describe(t)[:300], "indent": ind, "eol": eol})
+        if ctx.allinline(t) and it % 3 == 0:
+            # wherever the subtree is placed: as the document's own <body> (whitespace-disabled) and inside a document
+            f = ctx.flat(t)
+            b = core.Tag("body", *t.children, _add_ws=False)
+            for how, doc in (("HTMLDocument(<body _add_ws=False> of the subtree's children)", core.HTMLDocument(b)), ("HTMLDocument(subtree)", core.HTMLDocument(t))):
+                if t.name == "html" and how == "HTMLDocument(subtree)":
+                    continue           # a lone <html> tag IS the document: a <head> is inserted into it
+                try:
+                    dh = doc.render()["html"]
+                except Exception:
+                    continue
+                want = ctx.flat(b) if "body _add_ws" in how else f
+                if want not in dh:
+                    fails.append({"input": how + ": " + ctx.describe(t), "expected_substring": want, "observed": dh[:600]})
         for u in subs(ctx, t):
             if isinstance(u, core.Tag) and ctx.allinline(u):
                 nontrivial += 1
